@@ -318,6 +318,22 @@ pub fn programs_from(sources: &[String]) -> Vec<(String, Vec<RealMode>)> {
             for k in 0..n {
                 progs.push((format!("random:{}:{seed}#{k}", parts[0]), crate::record::gen_modes(&mut r, &p)));
             }
+        } else if s == "classpairs" {
+            // every ordered pair of leaf classes that are easy to confuse (same text up to case,
+            // braces, negation, escapes): targets the de-duplication in the class registry
+            let pool = ["\\pL", "\\PL", "\\p{Lowercase}", "\\P{Lowercase}", "\\p{Uppercase}", "\\pN", "\\PN", "\\d", "\\D", "\\w", "\\W", "\\s", "\\S",
+                "[a-c]", "[^a-c]", "[a-cx]", "[A-C]", "[abc]", "[a-c&&b-x]", "[a-c--b]", "[[:alpha:]]", "[[:^alpha:]]", "[[:lower:]]", "[\\pL]",
+                "[^\\pL]", "[\\PL]", "a", "A", "\\.", ".", "[.]", "[\\.]", "é", "\\u{e9}", "\\n", "[\\n]"];
+            for (i, a) in pool.iter().enumerate() {
+                for (j, b) in pool.iter().enumerate() {
+                    let pats = vec![
+                        crate::parse::RealPat { pattern: format!("{a}+"), tt: 1, la: None },
+                        crate::parse::RealPat { pattern: format!("x{b}"), tt: 2, la: if (i + j) % 3 == 0 { Some((true, format!("{a}|{b}{b}"))) } else { None } },
+                        crate::parse::RealPat { pattern: format!("{b}"), tt: 3, la: None },
+                    ];
+                    progs.push((format!("classpairs#{i}-{j}"), vec![RealMode { name: "M".into(), pats, trans: vec![] }]));
+                }
+            }
         } else if s == "corpus" {
             for f in corpus_files() {
                 progs.push((f.clone(), modes_from_json_file(&f)));
